@@ -24,7 +24,7 @@ def run(ctx):
         if ctx.quick:
             cfg = cfg.replace('MaxRecs = 2', 'MaxRecs = 1')
         ctx.tlc('MC_Relay', 'MC_Relay.cfg', timeout=3000, workers=8, cfgtext=cfg)
-    res = ctx.gotest('e2e', 'TestVerif_C39', tags='verif e2e_testing', also=('net',), timeout=1500)
+    res = ctx.gotest('e2e', 'TestVerif_C39', tags='verif e2e_testing', also=('net',), timeout=600 if ctx.quick else 1500)
     tf = os.path.join(res['_outdir'], 'trace_relay.ndjson')
     fails, ok = ctx.validate_traces('TraceMC_Relay', 'Trace_Relay.cfg', tf, max_fail=8)
     ctx.traces += ok
